@@ -290,6 +290,15 @@ pub fn op_kmers_adapt<A: HC, const K: usize>(ad: &str, arg: usize, x: &SeqSlice<
         "take" => it.take(arg).collect(),
         "nthnext" => { let mut it = it; let _ = it.nth(arg); it.collect() }
         "count" => return Ok(it.count().to_string()),
+        "hint" => {
+            let mut it = it;
+            for _ in 0..arg {
+                let _ = it.next();
+            }
+            let (lo, hi) = it.size_hint();
+            let n = it.count();
+            return Ok(if lo <= n && hi.map_or(true, |h| n <= h) { "1".to_string() } else { "0".to_string() });
+        }
         _ => vec![],
     };
     let out: Vec<String> = v.iter().map(|k| k.bs.to_string()).collect();
